@@ -82,6 +82,8 @@ func Lib() *ty.Env {
 	// shadows a field of the embedded struct (selectors must go through the embedded field)
 	add("EmU", "", ty.St(ty.Field{Name: "UE3", Embedded: true, T: ty.N(39)}, f("N", b("int"))), false) // 41
 	add("ES", "", ty.St(ty.Field{Name: "S1", Embedded: true, T: ty.N(5)}, f("A", b("string"))), false) // 42
+	// float-keyed maps as components (a destination's map may hold NaN keys, which cannot be deleted one by one)
+	add("FM", "", ty.St(f("M", ty.M(b("float64"), ty.Sl(b("int")))), f("K", ty.M(ty.N(2), b("string"))), f("N", b("int"))), false) // 43
 	return e
 }
 
